@@ -102,7 +102,7 @@ if __name__ == '__main__' and sys.argv[1:2] == ['--dirs']:
         print(name, confirm_dir(name), flush=True)
 elif __name__ == '__main__':
     for pid in sys.argv[1:]:
-        for x in 'ABCDEFGH':
+        for x in 'ABCDEFGHIJ':
             r = confirm(pid, x)
             if r is not None:
                 print(pid, x, 'confirmed=%s' % r.get('confirmed'), flush=True)
